@@ -524,7 +524,27 @@ pub fn bad_text_for(kind: &Kind, rng: &mut Rng, allow_empty: bool) -> Option<Str
         _ => return None,
     };
     let v: Vec<String> = v.into_iter().filter(|s| allow_empty || !s.is_empty()).collect();
+    if rng.below(100) < 18 {
+        // a long value that can never be a number, a bool or a single char: multi-byte characters at every alignment around the
+        // sizes at which implementations cut, abbreviate or switch buffers (error paths echo the offending value)
+        return Some(long_hostile_text(rng));
+    }
     Some(rng.pick(&v).clone())
+}
+
+/// 1-3 ASCII bytes followed by a run of one multi-byte character, total byte length next to a power of two (or 100/1000).
+pub fn long_hostile_text(rng: &mut Rng) -> String {
+    let unit = *rng.pick(&["\u{e9}", "\u{65e5}", "\u{1F600}", "\u{df}\u{10348}"]);
+    let around = *rng.pick(&[32usize, 64, 100, 128, 255, 256, 512, 1000, 1024, 2048, 4096]);
+    let target = (around + rng.below(9) as usize).saturating_sub(4).max(8);
+    let mut out = String::new();
+    for _ in 0..rng.below(4) {
+        out.push('x');
+    }
+    while out.len() < target {
+        out.push_str(unit);
+    }
+    out
 }
 
 pub fn bad_json_literal_for(kind: &Kind, rng: &mut Rng) -> String {
